@@ -34,16 +34,19 @@ pub struct DriveOpts {
 /// label pool: all three variants, multi-byte characters included
 pub fn label_pool(n: usize) -> Vec<String> {
     let all = [
-        "α0", "α1", "ρ", "x", "foo", "𝜑", "α12", "hello", "σ", "a-b", "€", "π", "abcdefgh", "α7", "Δ", "ξ1",
-        "q", "zz", "α3", "μ",
+        "α0", "α1", "ρ", "x", "foo", "𝜑", "α12", "hello", "σ", "a-b", "€", "π", "abcdefgh", "α7", "Δ", "∆",
+        "Foo", "ϕ", "φ", "µ", "μ", "ξ1", "q", "zz", "α3",
     ];
-    all.iter().take((n + 2).min(all.len())).map(|s| s.to_string()).collect()
+    // from "Δ" on: CONFUSABLE labels - distinct values that a well-meant canonicalisation would identify (the increment
+    // sign U+2206 next to the Greek capital delta, phi and its symbol variant, the micro sign next to mu, letter case)
+    all.iter().take((n + 4).min(all.len())).map(|s| s.to_string()).collect()
 }
 
 /// label VALUES that no text denotes, or that sit at the edge of the text form: a blank inside, a Str of one
 /// character, Greek('α'), an index of eight digits (save/load and clone must keep them apart all the same)
 pub fn odd_labels() -> Vec<String> {
-    ["~s:a b", "~s:z", "~g:α", "α12345678", "ab", "~s:αb"].iter().map(|s| s.to_string()).collect()
+    // ... and Str values ending in white space that is not the padding blank (TAB, no-break space) next to the trimmed twin
+    ["~s:a b", "~s:z", "~g:α", "α12345678", "ab", "~s:αb", "ab\t", "ab\u{a0}", "~s:ab \t"].iter().map(|s| s.to_string()).collect()
 }
 
 /// data values on both sides of the 8-byte inline boundary
@@ -53,6 +56,19 @@ pub fn data_pool() -> Vec<String> {
     for (k, l) in lens.iter().enumerate() {
         let bytes: Vec<u8> = (0..*l).map(|i| (i as u8).wrapping_mul(17).wrapping_add(k as u8 * 3 + 1)).collect();
         v.push(hex_text(&bytes));
+    }
+    // CONFUSABLE data: distinct byte strings that are equal under a coarser reading (+0.0 / -0.0 and two NaNs as f64, a
+    // leading or trailing zero byte as a number / C string), a heap value and its twin differing in the last byte only
+    for d in ["00-00-00-00-00-00-00-00", "80-00-00-00-00-00-00-00", "7F-F8-00-00-00-00-00-00", "7F-F8-00-00-00-00-00-01", "07-18-29-00", "00-07-18-29"] {
+        v.push(d.to_string());
+    }
+    let heap: Vec<u8> = (0..20u8).map(|i| i.wrapping_mul(17).wrapping_add(22)).collect();
+    let mut twin = heap.clone();
+    twin[19] ^= 1;
+    v.push(hex_text(&twin));
+    // the same bytes asked for as Hex::Vector whatever the length (both variants are public): empty, short, eight bytes
+    for d in ["--~v", "07-18-29~v", "00-00-00-00-00-00-00-00~v"] {
+        v.push(d.to_string());
     }
     v
 }
@@ -247,6 +263,31 @@ pub fn run(o: &DriveOpts, out: &mut dyn Write, tid: usize) -> Value {
                 && rec.call(&mut w, HCall { h: 0, call: Call::Put { v: b, d: datas[i % datas.len()].clone() } });
         }
     }
+    if o.odd > 0 && win >= 2 {
+        // labels that PRINT alike (a Str with a blank inside next to the Str without it ...) on ONE vertex to the SAME
+        // target: two edges, two entries in every export - and the observers are run right there
+        let (a, b) = (idbase + win - 1, idbase + win - 2);
+        let mut pair: Option<(String, String)> = None;
+        for l1 in &labels {
+            for l2 in &labels {
+                if l1 < l2 && crate::observers::printed_of_token(l1) == crate::observers::printed_of_token(l2) {
+                    pair = Some((l1.clone(), l2.clone()));
+                }
+            }
+        }
+        if let Some((l1, l2)) = pair {
+            if o.n >= 2 {
+                ok = ok
+                    && rec.call(&mut w, HCall { h: 0, call: Call::Add { v: a } })
+                    && rec.call(&mut w, HCall { h: 0, call: Call::Add { v: b } })
+                    && rec.call(&mut w, HCall { h: 0, call: Call::Bind { v1: a, v2: b, a: l1 } })
+                    && rec.call(&mut w, HCall { h: 0, call: Call::Bind { v1: a, v2: b, a: l2 } });
+                if ok {
+                    rec.events += crate::observers::observe_all(&w, 0, rec.tid, &[], rec.out);
+                }
+            }
+        }
+    }
     if profile == "fan" {
         // a hub with as many labels as N allows (up to 16): 15 children in its group (16 members), the remaining label to
         // a child again; then data on some children, so that the random part collects, re-adds and re-binds around it
@@ -339,6 +380,94 @@ pub fn run(o: &DriveOpts, out: &mut dyn Write, tid: usize) -> Value {
         }
     }
 
+    if profile == "slice14" {
+        // slices of exactly 14 vertices taken from 14 DIFFERENT groups while all 14 groups are alive: 14 pairs
+        // 2i -> 2i+1, the odd ones chained 1 -> 3 -> ... -> 27 (binding two grouped vertices changes no group), now and then
+        // closed to a cycle; sliced from several starts with several predicates; the slice is used (put + data) afterwards
+        let nl = o.n.max(1).min(labels.len());
+        if o.cap < 28 {
+            return json!({"t": tid, "profile": o.profile, "n": o.n, "cap": o.cap, "seed": o.seed, "events": rec.events, "panicked": false, "skipped": "capacity below 28"});
+        }
+        let base = if o.seed % 2 == 0 { 0 } else { o.cap - 28 };
+        for i in 0..14 {
+            ok = ok
+                && rec.call(&mut w, HCall { h: 0, call: Call::Add { v: base + 2 * i } })
+                && rec.call(&mut w, HCall { h: 0, call: Call::Add { v: base + 2 * i + 1 } })
+                && rec.call(&mut w, HCall { h: 0, call: Call::Bind { v1: base + 2 * i, v2: base + 2 * i + 1, a: labels[i % nl].clone() } });
+        }
+        for i in 0..13 {
+            ok = ok && rec.call(&mut w, HCall { h: 0, call: Call::Bind { v1: base + 2 * i + 1, v2: base + 2 * i + 3, a: labels[(i + 1) % nl].clone() } });
+        }
+        for i in (0..14).step_by(3) {
+            ok = ok && rec.call(&mut w, HCall { h: 0, call: Call::Put { v: base + 2 * i + 1, d: datas[i % datas.len()].clone() } });
+        }
+        let mut round = 0usize;
+        while ok && round < 6 {
+            let start = base + 1 + 2 * (round % 3);
+            let p = match round % 3 {
+                0 => Pred::All,
+                1 => Pred::LabelNe("zzz".to_string()),
+                _ => Pred::Lt,
+            };
+            ok = ok && rec.call(&mut w, HCall { h: 0, call: Call::Slice { dst: 1, v: start, p } });
+            if ok && w.gs.get(1).map(|x| x.is_some()).unwrap_or(false) {
+                let pres = w.g(1).keys().unwrap_or_default();
+                // (the slice is one group: the data are put first and read afterwards, the last read collects it)
+                for v in pres.iter().take(3) {
+                    ok = ok && rec.call(&mut w, HCall { h: 1, call: Call::Put { v: *v, d: datas[(round + 1) % datas.len()].clone() } });
+                }
+                for v in pres.iter().take(3) {
+                    ok = ok && rec.call(&mut w, HCall { h: 1, call: Call::Data { v: *v } });
+                }
+            }
+            if round == 2 && o.n >= 2 {
+                // close the chain to a cycle: 27 -> 1 (the slice from 1 is still the 14 odd vertices)
+                ok = ok && rec.call(&mut w, HCall { h: 0, call: Call::Bind { v1: base + 27, v2: base + 1, a: labels[(14 + 1) % nl].clone() } });
+            }
+            round += 1;
+        }
+        return json!({"t": tid, "profile": o.profile, "n": o.n, "cap": o.cap, "seed": o.seed, "events": rec.events, "panicked": !ok});
+    }
+
+    if profile == "bigdata" {
+        // LARGE data (64 KiB .. 17 MiB: beyond any buffer, chunk or limit a copy or an image might have) through
+        // save+load and clone / clone_from, mirrored: a pair with the big datum on one member, read once (kept: the other
+        // member holds an unread one), copied, read again on both sides, then the group read out on both sides.
+        // In the trace the datum is the token "~big:<len>:<seed>" (real::hex_text), so the lines stay short.
+        let sizes = [70_000usize, 4096, 4095, (1 << 20) + 3, (16 << 20) + 1, 17 << 20];
+        for (i, sz) in sizes.iter().enumerate() {
+            if !ok || 2 * i + 1 >= o.cap {
+                break;
+            }
+            let (a, b) = (2 * i, 2 * i + 1);
+            let big = if *sz >= crate::real::BIG_FROM { format!("~big:{}:{}", sz, o.seed + i as u64) } else { hex_text(&crate::real::big_bytes(*sz, o.seed + i as u64)) };
+            let both = |rec: &mut Recorder, w: &mut World, call: Call| -> bool {
+                let r = rec.call(w, HCall { h: 0, call: call.clone() });
+                if !r {
+                    return false;
+                }
+                rec.mirror_next = true;
+                rec.call(w, HCall { h: 1, call })
+            };
+            ok = ok
+                && rec.call(&mut w, HCall { h: 0, call: Call::Add { v: a } })
+                && rec.call(&mut w, HCall { h: 0, call: Call::Add { v: b } })
+                && rec.call(&mut w, HCall { h: 0, call: Call::Bind { v1: a, v2: b, a: labels[i % labels.len().min(o.n.max(1))].clone() } })
+                && rec.call(&mut w, HCall { h: 0, call: Call::Put { v: b, d: big.clone() } })
+                && rec.call(&mut w, HCall { h: 0, call: Call::Put { v: a, d: datas[i % datas.len()].clone() } })
+                && rec.call(&mut w, HCall { h: 0, call: Call::Data { v: b } })
+                && rec.call(&mut w, HCall { h: 0, call: if i % 2 == 0 { Call::Reload { dst: 1 } } else { Call::Clone { dst: 1 } } });
+            ok = ok && w.gs.get(1).map(|x| x.is_some()).unwrap_or(false);
+            ok = ok && both(&mut rec, &mut w, Call::Data { v: b });
+            ok = ok && rec.call(&mut w, HCall { h: 0, call: if i % 2 == 0 { Call::Clone { dst: 1 } } else { Call::Reload { dst: 1 } } });
+            ok = ok && both(&mut rec, &mut w, Call::Data { v: b });
+            ok = ok && both(&mut rec, &mut w, Call::Put { v: b, d: big.clone() });
+            ok = ok && both(&mut rec, &mut w, Call::Data { v: a });
+            ok = ok && both(&mut rec, &mut w, Call::Data { v: b });
+        }
+        return json!({"t": tid, "profile": o.profile, "n": o.n, "cap": o.cap, "seed": o.seed, "events": rec.events, "panicked": !ok});
+    }
+
     if profile == "alloc" {
         // the allocator walked through the WHOLE id space: pairs of ids from next_id() are added, bound, given a datum, read
         // and collected; now and then a vertex is created explicitly a little above the allocator position and stays (the
@@ -374,7 +503,21 @@ pub fn run(o: &DriveOpts, out: &mut dyn Write, tid: usize) -> Value {
             }
             round += 1;
         }
-        return json!({"t": tid, "profile": o.profile, "n": o.n, "cap": o.cap, "seed": o.seed, "events": rec.events, "panicked": !ok, "rounds": round});
+        // finale: the last ids are handed out, then the allocator is asked once more although (by the driver's own count)
+        // none is left above its position - collected ids with read data lie below it.  The library may panic there (the
+        // trace ends; the call is outside C05's precondition), but an id it RETURNS must still be a fresh one.
+        let mut finale = 0usize;
+        if ok && rec.events < o.steps + 8 {
+            let left = (nv..o.cap).filter(|i| !taken.contains(i)).count();
+            for _ in 0..(left + 1) {
+                if !ok {
+                    break;
+                }
+                ok = rec.call(&mut w, HCall { h: 0, call: Call::NextId });
+                finale += 1;
+            }
+        }
+        return json!({"t": tid, "profile": o.profile, "n": o.n, "cap": o.cap, "seed": o.seed, "events": rec.events, "panicked": !ok, "rounds": round, "finale": finale});
     }
 
     if profile == "cycle" || profile == "cycletwin" || profile == "cyclescript" {
@@ -390,11 +533,11 @@ pub fn run(o: &DriveOpts, out: &mut dyn Write, tid: usize) -> Value {
         let twin_mode = profile == "cycletwin";
         let script_mode = profile == "cyclescript";
         let labels: Vec<String> = if script_mode {
-            labels.iter().filter(|a| !a.starts_with('~') && !a.contains(' ') && !a.contains('-') && !a.contains(',')).cloned().collect()
+            labels.iter().filter(|a| !a.starts_with('~') && !a.chars().any(char::is_whitespace) && !a.contains('-') && !a.contains(',')).cloned().collect()
         } else {
             labels.clone()
         };
-        let datas: Vec<String> = if script_mode { datas.iter().filter(|d| d.as_str() != "--").cloned().collect() } else { datas.clone() };
+        let datas: Vec<String> = if script_mode { datas.iter().filter(|d| d.as_str() != "--" && !d.contains('~')).cloned().collect() } else { datas.clone() };
         let nl = o.n.max(1).min(labels.len());
         let mut buf: Vec<Call> = vec![];
         let mut flushes = 0usize;
@@ -582,6 +725,20 @@ pub fn run(o: &DriveOpts, out: &mut dyn Write, tid: usize) -> Value {
                 let c = if (round + o.seed as usize) % 2 == 0 { Call::Clone { dst: 1 } } else { Call::Reload { dst: 1 } };
                 ok = ok && rec.call(&mut w, HCall { h: 0, call: c });
                 twin_alive = ok && w.gs.get(1).map(|x| x.is_some()).unwrap_or(false);
+            }
+            // a second datum in a group that holds an unread one, put and read at once (on the copy as well): the group stays -
+            // its first datum is still unread, whatever the copy made of the counters: in the main group (a member that is not
+            // a holder) and in the background pairs created first and last (the a-side; the b-side holds the unread datum)
+            if let Some(wv) = m.iter().copied().find(|v| !holders.contains(v)) {
+                go!(Call::Put { v: wv, d: datas[(round + 7) % datas.len()].clone() });
+                go!(Call::Data { v: wv });
+            }
+            for i in [0usize, g.saturating_sub(1), g / 2] {
+                if i < 13 && bg[i] {
+                    let a = o.cap - 2 * (i + 1);
+                    go!(Call::Put { v: a, d: datas[(round + i) % datas.len()].clone() });
+                    go!(Call::Data { v: a });
+                }
             }
             // read everything (a second read of the first holder in between: Taken, counts nothing)
             let order: Vec<usize> = if round % 2 == 0 { holders.clone() } else { holders.iter().rev().copied().collect() };
@@ -884,7 +1041,10 @@ pub fn run(o: &DriveOpts, out: &mut dyn Write, tid: usize) -> Value {
                 // variant "full": ONE group of exactly 16 in both graphs (nothing can be added under it, nothing has to be),
                 // the right graph now and then with isolated extra vertices (which the merge must report)
                 let full = rng.gen_bool(0.4);
-                let total = if full { 16 } else { rng.gen_range(17..=22usize) };
+                // variant "chain": the tree is ONE path through both components, 19 to 21 edges deep (deeper than a group is
+                // large, deeper than anything a single group can hold)
+                let chain = !full && rng.gen_bool(0.35);
+                let total = if full { 16 } else if chain { rng.gen_range(20..=22usize) } else { rng.gen_range(17..=22usize) };
                 let a = if full { total } else { rng.gen_range((total - 11).max(6)..=11usize.min(total - 6)) };
                 let nlab = o.n.min(labels.len());
                 // shape[i] = (parent index, label index); component A = 0..a, component B = a..total (B's root hangs below A)
@@ -894,7 +1054,7 @@ pub fn run(o: &DriveOpts, out: &mut dyn Write, tid: usize) -> Value {
                     // (the last vertex of A may be left out of g: it has to stay a leaf, so B never hangs below it)
                     let (lo, hi) = if i < a { (0, i) } else if i == a { (0, a - 1) } else { (a, i) };
                     let cands: Vec<usize> = (lo..hi).filter(|p| usedl[*p].len() < nlab).collect();
-                    let Some(par) = cands.choose(&mut rng).copied() else { continue };
+                    let Some(par) = (if chain { cands.last().copied() } else { cands.choose(&mut rng).copied() }) else { continue };
                     let free: Vec<usize> = (0..nlab).filter(|l| !usedl[par].contains(l)).collect();
                     let l = *free.choose(&mut rng).unwrap();
                     usedl[par].push(l);
@@ -935,6 +1095,70 @@ pub fn run(o: &DriveOpts, out: &mut dyn Write, tid: usize) -> Value {
                 }
                 ok = ok && rec.call(&mut w, HCall { h: 0, call: Call::Merge { src: 1, left: roots.0, right: roots.1 } });
                 for _ in 0..rng.gen_range(4..16) {
+                    if !ok {
+                        break;
+                    }
+                    let pres = w.g(0).keys().unwrap_or_default();
+                    let Some(v) = pres.choose(&mut rng).copied() else { break };
+                    ok = rec.call(&mut w, HCall { h: 0, call: Call::Data { v } });
+                }
+                continue;
+            }
+            if rng.gen_bool(0.15) && win >= 12 {
+                // "tight": the left graph has exactly as many ids to spare as the merge needs.  Its vertices come from
+                // next_id() (so the allocator stands right behind them), its capacity is their number plus the k leaves the
+                // right tree has in addition (k = 0, 1, 2; now and then one id more); the right tree repeats the left one
+                // label by label, so that all but k of its vertices are found, not created.
+                let total = rng.gen_range(2..=8usize);
+                let k = rng.gen_range(0..=2usize);
+                let nlab = o.n.min(labels.len());
+                let mut shape: Vec<(usize, usize)> = vec![(0, 0); total + k];
+                let mut usedl: Vec<Vec<usize>> = vec![vec![]; total + k];
+                let mut built = 1usize;
+                for i in 1..(total + k) {
+                    // the k additional leaves (indices total..) hang below vertices of the shared part
+                    let hi = i.min(total);
+                    let cands: Vec<usize> = (0..hi).filter(|p| usedl[*p].len() < nlab).collect();
+                    let Some(par) = cands.choose(&mut rng).copied() else { break };
+                    let free: Vec<usize> = (0..nlab).filter(|l| !usedl[par].contains(l)).collect();
+                    let l = *free.choose(&mut rng).unwrap();
+                    usedl[par].push(l);
+                    shape[i] = (par, l);
+                    built = i + 1;
+                }
+                let total = total.min(built);
+                let extra = built - total;
+                let cap_g = built + usize::from(rng.gen_bool(0.25));
+                ok = ok && rec.call(&mut w, HCall { h: 0, call: Call::New { n: o.n, cap: cap_g } });
+                let mut gids = vec![];
+                for _ in 0..total {
+                    ok = ok && rec.call(&mut w, HCall { h: 0, call: Call::NextId });
+                    let Some(id) = rec.last_id else { break };
+                    gids.push(id);
+                    ok = ok && rec.call(&mut w, HCall { h: 0, call: Call::Add { v: id } });
+                }
+                if !ok || gids.len() < total {
+                    break;
+                }
+                for i in 1..total {
+                    ok = ok && rec.call(&mut w, HCall { h: 0, call: Call::Bind { v1: gids[shape[i].0], v2: gids[i], a: labels[shape[i].1].clone() } });
+                }
+                ok = ok && rec.call(&mut w, HCall { h: 1, call: Call::New { n: o.n, cap: o.cap } });
+                let mut ids: Vec<usize> = (0..win).collect();
+                ids.shuffle(&mut rng);
+                for i in 0..(total + extra) {
+                    ok = ok && rec.call(&mut w, HCall { h: 1, call: Call::Add { v: ids[i] } });
+                }
+                for i in 1..(total + extra) {
+                    ok = ok && rec.call(&mut w, HCall { h: 1, call: Call::Bind { v1: ids[shape[i].0], v2: ids[i], a: labels[shape[i].1].clone() } });
+                }
+                for i in 0..(total + extra) {
+                    if rng.gen_bool(0.5) {
+                        ok = ok && rec.call(&mut w, HCall { h: 1, call: Call::Put { v: ids[i], d: datas.choose(&mut rng).unwrap().clone() } });
+                    }
+                }
+                ok = ok && rec.call(&mut w, HCall { h: 0, call: Call::Merge { src: 1, left: gids[0], right: ids[0] } });
+                for _ in 0..rng.gen_range(2..8) {
                     if !ok {
                         break;
                     }
@@ -1014,7 +1238,7 @@ pub fn run(o: &DriveOpts, out: &mut dyn Write, tid: usize) -> Value {
             // a script that fails AFTER its variables got their ids and formed a group with an unread datum; the group is then
             // read and collected and the allocator asked again: it must not hand those ids out a second time
             let before = vw.present.clone();
-            let l = labels.iter().find(|a| a.is_ascii() && !a.contains('-') && !a.starts_with('~') && !a.contains(' ')).cloned().unwrap_or_else(|| "foo".to_string());
+            let l = labels.iter().find(|a| a.is_ascii() && !a.contains('-') && !a.starts_with('~') && !a.chars().any(char::is_whitespace)).cloned().unwrap_or_else(|| "foo".to_string());
             let prog = json!([{"c": "ADD", "v": {"k": "var", "name": "a"}}, {"c": "ADD", "v": {"k": "var", "name": "b"}},
                               {"c": "BIND", "v1": {"k": "var", "name": "a"}, "v2": {"k": "var", "name": "b"}, "a": l},
                               {"c": "PUT", "v": {"k": "var", "name": "b"}, "d": "CA-FE"}, {"c": "ADD", "v": {"k": "lit", "id": 0}}]);
@@ -1063,7 +1287,7 @@ pub fn run(o: &DriveOpts, out: &mut dyn Write, tid: usize) -> Value {
                     let var = vars.choose(&mut rng).unwrap().clone();
                     let v = *vw.present.choose(&mut rng).unwrap();
                     let a = labels.iter().take(o.n.max(1)).collect::<Vec<_>>().choose(&mut rng).map(|x| (*x).clone()).unwrap();
-                    let a_ok = a.is_ascii() && !a.contains('-') && !a.starts_with('~') && !a.contains(' ');
+                    let a_ok = a.is_ascii() && !a.contains('-') && !a.starts_with('~') && !a.chars().any(char::is_whitespace);
                     let room_v = vw.nlabels[&v].contains(&a) || vw.nlabels[&v].len() < o.n;
                     let gs = vw.tag[&v];
                     let fits = gs < 2 || vw.group_size[&gs] + vars.len() < 15;
@@ -1083,7 +1307,7 @@ pub fn run(o: &DriveOpts, out: &mut dyn Write, tid: usize) -> Value {
                     grouped_new += 1;
                 } else if k == 2 && (!vars.is_empty() || !vw.present.is_empty()) {
                     let d = datas.choose(&mut rng).unwrap().clone();
-                    if d == "--" {
+                    if d == "--" || d.contains('~') {
                         continue;
                     }
                     let dtxt = if rng.gen_bool(0.5) { d.to_lowercase() } else { d.clone() };
@@ -1255,5 +1479,59 @@ pub fn run(o: &DriveOpts, out: &mut dyn Write, tid: usize) -> Value {
             ok = rec.call(&mut w, HCall { h: 1, call: Call::NextId });
         }
     }
-    json!({"t": tid, "profile": o.profile, "n": o.n, "cap": o.cap, "seed": o.seed, "events": rec.events, "panicked": !ok})
+    // epilogue: drain and refill (C06 "no matter how many groups have lived and died before"; the model-level statement is
+    // Sodg!Recoverable).  Whatever the random history left behind: every group is read out (a datum is put on a member of
+    // a group that holds none), which must collect all of them; then as many two-vertex groups as fit (at most 14) are
+    // formed from what is left and from re-created ids, given a datum, read and collected again.  Every call is inside the
+    // limits; the judge follows it like any other history.
+    let mut drained = 0usize;
+    let mut refilled = 0usize;
+    if ok && !twin_alive && matches!(profile, "mixed" | "groups14" | "big16" | "fan" | "high" | "observe" | "script") {
+        let vw = view(&w, 0);
+        let mut groups: BTreeMap<usize, Vec<usize>> = BTreeMap::new();
+        for (v, t) in &vw.tag {
+            if *t >= 2 {
+                groups.entry(*t).or_default().push(*v);
+            }
+        }
+        for (_, members) in &groups {
+            let mut unread: Vec<usize> = members.iter().copied().filter(|v| vw.unread.contains(v)).collect();
+            if unread.is_empty() {
+                let v = members[rng.gen_range(0..members.len())];
+                ok = ok && rec.call(&mut w, HCall { h: 0, call: Call::Put { v, d: datas[v % datas.len()].clone() } });
+                unread.push(v);
+            }
+            for v in unread {
+                ok = ok && rec.call(&mut w, HCall { h: 0, call: Call::Data { v } });
+            }
+            drained += 1;
+        }
+        if ok {
+            let vw = view(&w, 0);
+            let mut pool: Vec<usize> = vw.present.iter().copied().filter(|v| vw.tag.get(v).copied().unwrap_or(0) < 2).collect();
+            for i in 0..win {
+                let v = idbase + i;
+                if !vw.present.contains(&v) && pool.len() < 28 {
+                    ok = ok && rec.call(&mut w, HCall { h: 0, call: Call::Add { v } });
+                    pool.push(v);
+                }
+            }
+            let k = (pool.len() / 2).min(14);
+            let mut carriers = vec![];
+            for i in 0..k {
+                let (a, b) = if i % 2 == 0 { (pool[2 * i], pool[2 * i + 1]) } else { (pool[2 * i + 1], pool[2 * i]) };
+                let have = rec.own.get(&(0, a)).cloned().unwrap_or_else(|| vw.nlabels.get(&a).cloned().unwrap_or_default());
+                let lab = if have.len() >= o.n { have[i % have.len()].clone() } else { labels[i % labels.len()].clone() };
+                ok = ok && rec.call(&mut w, HCall { h: 0, call: Call::Bind { v1: a, v2: b, a: lab } });
+                let c = if i % 3 == 0 { a } else { b };
+                ok = ok && rec.call(&mut w, HCall { h: 0, call: Call::Put { v: c, d: datas[(i + 2) % datas.len()].clone() } });
+                carriers.push(c);
+            }
+            for c in carriers {
+                ok = ok && rec.call(&mut w, HCall { h: 0, call: Call::Data { v: c } });
+                refilled += 1;
+            }
+        }
+    }
+    json!({"t": tid, "profile": o.profile, "n": o.n, "cap": o.cap, "seed": o.seed, "events": rec.events, "panicked": !ok, "drained": drained, "refilled": refilled})
 }
